@@ -94,7 +94,20 @@ def run(rep, tier):
         # memory write
         stores = [] if opc == 13 else [s for l in leaves if not l.undefined for s in l.stores]
         ws = [(g, i, v) for (arr, g, i, v) in r['writes'] if arr == MEMSPACE and g != F]
-        other = [w for w in r['writes'] if w[0] != MEMSPACE] + r['proc_writes']
+        other = [w for w in r['writes'] if w[0] != MEMSPACE and not str(w[0]).startswith('$')] + [w for w in r['proc_writes'] if not str(w[0]).startswith('$')]
+        tasks = [w for w in r['writes'] if str(w[0]).startswith('$') and w[1] != F]
+        if tasks:
+            # a simulation task ($error, $stop, $display) that can fire for this byte: an effect the ISA does not have.  Where the ISA
+            # leaves part of the byte's behaviour undefined (SVC with an unknown call number) the task may be confined to that part:
+            # not decided here
+            k_ = 'byte=0x%02X:simulation-task' % b
+            w_ = 'verilog/processor.sv (%s %d)' % (spec_isa.MNEMONIC_OF.get(opc, '?'), opr)
+            if any(l.undefined for l in leaves):
+                rep.undecided('R1', k_, '%s can fire under %s; the ISA leaves part of this byte undefined and the rule does not decide whether the '
+                              'task is confined to that part' % (sorted({t_[0] for t_ in tasks}), repr(tasks[0][1])[:160]), w_)
+            else:
+                rep.add('R1', k_, False, w_, '%s fires under %s for an instruction whose behaviour the ISA defines completely: the simulation '
+                        'stops or prints where the ISA just executes' % (sorted({t_[0] for t_ in tasks}), repr(tasks[0][1])[:200]))
         if stores:
             (sa, sv), = stores
             exp['write'] = ('write', T, trunc(sa, 19), sv)
